@@ -1015,6 +1015,47 @@ theorem rowsOfCols_replicate [Inhabited α] (nc k : Nat) (p : α) :
     simp [List.getD_eq_getElem?_getD, hi, map_range_const]
   rw [List.map_congr_left this, map_range_const]
 
+/-! ### row-count-changing batch functions (`flatMapRows`) -/
+
+theorem ofRows_rect [Inhabited β] {kinds : List Kind} (hk : ∀ k ∈ kinds, k ≠ .other)
+    (rows : List (List β)) : Rect kinds.length rows.length (ofRows kinds rows) := by
+  refine ⟨by simp [ofRows], ?_⟩
+  intro c hc
+  simp only [ofRows, List.mem_map, List.mem_range] at hc
+  obtain ⟨i, hi, rfl⟩ := hc
+  refine ⟨?_, by simp⟩
+  simp only [List.getD_eq_getElem?_getD, List.getElem?_eq_getElem hi, Option.getD_some]
+  exact hk _ (List.getElem_mem hi)
+
+theorem colRows_ofRows [Inhabited β] {kinds : List Kind} (rows : List (List β)) {c : Nat}
+    (hc : c < kinds.length) : colRows (ofRows kinds rows) c = rows.map fun r => r.getD c default := by
+  simp [colRows, ofRows, List.getD_eq_getElem?_getD, hc]
+
+theorem colConcat_flatMapRows [Inhabited α] [Inhabited β] (g : List α → List (List β))
+    {kinds : List Kind} (xs : List (Batch α)) {c : Nat} (hc : c < kinds.length) :
+    colConcat (xs.map (flatMapRows g kinds)) c
+      = ((xs.flatMap rowsOf).flatMap g).map fun r => r.getD c default := by
+  induction xs with
+  | nil => rfl
+  | cons b xs ih => simp [flatMapRows, colRows_ofRows _ hc, ih]
+
+theorem wf_flatMapRows [Inhabited α] [Inhabited β] (g : List α → List (List β)) {kinds : List Kind}
+    (hk : ∀ k ∈ kinds, k ≠ .other) (hn : 0 < kinds.length) (xs : List (Batch α)) :
+    WF kinds.length (xs.map (flatMapRows g kinds)) := by
+  intro b hb
+  simp only [List.mem_map] at hb
+  obtain ⟨b0, _, rfl⟩ := hb
+  have := ofRows_rect hk ((rowsOf b0).flatMap g)
+  simp only [flatMapRows]
+  rw [this.nrows hn]; exact this
+
+theorem totalRows_flatMapRows [Inhabited α] [Inhabited β] (g : List α → List (List β))
+    {kinds : List Kind} (hk : ∀ k ∈ kinds, k ≠ .other) (hn : 0 < kinds.length)
+    (xs : List (Batch α)) :
+    totalRows (xs.map (flatMapRows g kinds)) = ((xs.flatMap rowsOf).flatMap g).length := by
+  rw [← length_colConcat (wf_flatMapRows g hk hn xs) hn, colConcat_flatMapRows g xs hn]
+  simp
+
 end RowView
 
 end MlModel.Rebatch
